@@ -74,7 +74,10 @@ def judge(ln):
                 return ('fail', 'origin-advanced-too-far:' + op + ':' + name, 'axis %d: advanced %.6g, error bound sum %.6g' % (k, float(adv[k]), float(tot)))
         # (b) no point of the origin's error box lies ahead of the advanced origin:  for all |δ|<=err: (exact_o+δ - ro).rd <= 0
         ahead = vdot(vsub(exact_o, ro), rd) + sum(abs(rd[k]) * oerr[k] for k in range(3))
-        slack = C.FMT.u * 64 * (sum(abs(rd[k]) * (abs(ro[k]) + abs(exact_o[k])) for k in range(3)))
+        # the error box is centred on the COMPUTED image of the origin, which is not printed; it differs from the exact image by at
+        # most the rigorous forward error gamma(4) * sum_j |m_kj||o_j| of the row sum (which can be far larger than |exact_o[k]|
+        # itself when the terms cancel), plus the rounding of the advance o + d*dt
+        slack = sum(abs(rd[k]) * (gamma(4) * row_abs(m, k, o, True) + C.FMT.u * 64 * (abs(ro[k]) + abs(exact_o[k]))) for k in range(3))
         if ahead > slack:
             return ('fail', 'error-box-ahead-of-origin:' + op + ':' + name, 'ahead by %.6g (slack %.3g)' % (float(ahead), float(slack)))
     return ('ok', '')
